@@ -7,6 +7,7 @@
 //        sevmode 0..5: every record at that severity; 6: (5t+k) mod 6; 7: thread 0 fatal, others k mod 5;
 //        8: info, and every second record is logged by a callable operand of the following statement
 //           (2*records records per thread: inner 2k, then outer 2k+1)
+//        9: info; the records of thread 0 are longer than a page
 #include "common.hpp"
 
 #include <nitro/log/attribute/message.hpp>
@@ -144,6 +145,8 @@ protected:
 
 static int sev_of(int t, int k, int mode)
 {
+    if (mode == 9)
+        return t == 0 ? 6 : 2; // 6: an info record with a long payload (see record_text)
     if (mode == 8)
         return 2;
     if (mode <= 5)
@@ -160,7 +163,11 @@ static std::string record_text(int t, int k, int sev)
     r.push_back(static_cast<char>(t + 1));
     r.push_back(static_cast<char>(k + 1));
     r.push_back(static_cast<char>(sev + 1));
-    r.append(static_cast<std::size_t>((t * 7 + k * 3) % 9), static_cast<char>(((t + k) % 200) + 1));
+    // severity code 7 (mode 9, thread 0): a record longer than a page (4090..4109 bytes of payload)
+    std::size_t payload = static_cast<std::size_t>((t * 7 + k * 3) % 9);
+    if (sev >= 6)
+        payload = 4090 + static_cast<std::size_t>((t * 7 + k * 3) % 20);
+    r.append(payload, static_cast<char>(((t + k) % 200) + 1));
     r.push_back('\0');
     return r;
 }
@@ -168,7 +175,7 @@ static std::string record_text(int t, int k, int sev)
 template <typename L>
 static void log_one(int sev, const std::string& text)
 {
-    switch (sev)
+    switch (sev >= 6 ? 2 : sev)
     {
     case 0:
         L::trace() << text;
